@@ -757,7 +757,10 @@ func vfC11SNICertificate(t *testing.T, res *vfResult, defaultKind string, suites
 	pki := vfGetPKI()
 	res.Eval(1)
 	otherKind := map[string]string{"ecdsa": "rsa", "rsa": "ecdsa"}[defaultKind]
-	other := pki.Leaf(otherKind, map[string]string{"rsa": "server-other", "ecdsa": "server-wrongname"}[otherKind])
+	if strings.HasPrefix(tag, "ed25519-served") {
+		otherKind = "ed25519" // an Ed25519 key fits the ECDSA suites only
+	}
+	other := pki.Leaf(otherKind, map[string]string{"rsa": "server-other", "ecdsa": "server-wrongname", "ed25519": "server-other"}[otherKind])
 	cO := append(vfV12(), WithRootCAs(pki.Pool), WithServerName("other.example"))
 	sO := append(vfV12(), WithCertificates(pki.Leaf(defaultKind, "server"), other))
 	if suites != nil {
@@ -990,6 +993,9 @@ func TestVF_C11(t *testing.T) {
 		{"ecdsa", []CipherSuiteID{TLS_ECDHE_ECDSA_WITH_AES_128_GCM_SHA256, TLS_ECDHE_RSA_WITH_AES_128_GCM_SHA256}, "ecdsa-suite-first"},
 		{"rsa", []CipherSuiteID{TLS_ECDHE_RSA_WITH_AES_256_GCM_SHA384, TLS_ECDHE_ECDSA_WITH_AES_256_GCM_SHA384}, "rsa-suite-first"},
 		{"ecdsa", []CipherSuiteID{TLS_ECDHE_ECDSA_WITH_AES_128_GCM_SHA256}, "only-default-kind-suites"},
+		{"rsa", nil, "ed25519-served/default-suites"},
+		{"rsa", []CipherSuiteID{TLS_ECDHE_RSA_WITH_AES_128_GCM_SHA256, TLS_ECDHE_ECDSA_WITH_AES_128_GCM_SHA256}, "ed25519-served/rsa-suite-first"},
+		{"ecdsa", nil, "ed25519-served/control-default-ecdsa"},
 	}
 	vfBubbles(t, len(snis), func(t *testing.T, i int) { vfC11SNICertificate(t, res, snis[i].def, snis[i].suites, snis[i].tag) })
 	type ccv struct {
